@@ -173,3 +173,15 @@ fn d13_ambiguous_cluster_with_autocomplete() {
     let msg = p.run_inner(&["-ab"]).unwrap_err().unwrap_stderr();
     assert!(msg.contains("as both an option and an option-argument"), "{}", msg);
 }
+
+/// D14 (C16): a request argument that ends in a line break must not swallow the request that follows it
+/// (`.TH .. Manual\ title\ .SH NAME` on one line: the NAME section header was lost)
+#[test]
+fn d14_request_argument_ending_in_newline_keeps_the_next_request_on_its_own_line() {
+    let p = short('a').help("flag a").switch().to_options().descr("desc");
+    let roff = p.render_manpage("app", bpaf::doc::Section::General, Some("date"), Some("me"), Some("Manual title\n"));
+    let th = roff.lines().find(|l| l.starts_with(".TH")).expect("no .TH line");
+    assert!(!th.contains(".SH"), "the .SH request was swallowed by the .TH line: {}", th);
+    assert!(roff.lines().any(|l| l == ".SH NAME"), "{}", roff);
+}
+
